@@ -396,3 +396,110 @@ class PowReal(Contract):
 def E_ival(t):
     t = z3.simplify(t) if z3.is_expr(t) else z3.IntVal(t)
     return t.as_long() if z3.is_int_value(t) else None
+
+
+# ---------------------------------------------------------------------------------------------- piecewise kernels (away from the kink)
+def sgn(t): return z3.If(t > 0, z3.RealVal(1), z3.If(t < 0, z3.RealVal(-1), z3.RealVal(0)))
+
+@register
+class Absolute(Contract):
+    qual = A('_absolute'); arrays = ('x_data', 'out'); modifies = ('out',); returns = 'out'
+    cfgs = {'distinct': {}, 'out_none': {'out': None}, 'out_is_x': {'alias': {'out': 'x_data'}}}
+    property_ids = ('C01', 'C12', 'C14')
+    def requires(self, c): return [c.pre['x_data'][0] != 0]          # the kink itself is excluded by the property
+    def val(self, c, j): x = c.pre['x_data']; return sgn(x[0]) * x[j]
+    def ensures(self, c):
+        o = c.outarr(); return [('out[d] = sign(x0) x[d]', c.forall(0, c.D, lambda j: o[j] == self.val(c, j)))]
+    def invariants(self):
+        def inv0(c, d):
+            o = c.local('z_data'); x = c.pre['x_data']; xs = c.st.env.get('x_data')
+            cur = c.st.heap[xs.base][0]
+            # orders >= d of the (possibly aliased) input still hold their entry values
+            return [c.forall(0, d, lambda j: o[j] == self.val(c, j)), c.forall(d, c.D, lambda j: cur[j] == x[j])] + ([c.scalar_any('x_data_sign') == sgn(x[0])] if c.has_local('x_data_sign') else [])
+        return {0: inv0}
+    def oracle(self, inp, scal, cfg):
+        s_ = 1.0 if inp['x_data'][0] > 0 else -1.0; return {self.out_key(cfg): [s_ * v for v in inp['x_data']]}
+
+@register
+class Sign(Contract):
+    qual = A('_sign'); arrays = ('x_data', 'out'); modifies = ('out',); returns = 'out'
+    cfgs = {'distinct': {}}
+    property_ids = ('C01', 'C12', 'C14')
+    def requires(self, c): return [c.pre['x_data'][0] != 0]
+    def ensures(self, c):
+        o = c.cur('out'); x = c.pre['x_data']; return [('out = (sign(x0), 0, 0, ...)', c.forall(0, c.D, lambda j: o[j] == z3.If(j == 0, sgn(x[0]), z3.RealVal(0))))]
+    def oracle(self, inp, scal, cfg): return {'out': [1.0 if inp['x_data'][0] > 0 else -1.0] + [0.0] * (len(inp['x_data']) - 1)}
+
+class MinMax(Contract):
+    arrays = ('x_data', 'y_data', 'out'); modifies = ('out',); returns = 'out'
+    cfgs = {'distinct': {}, 'out_none': {'out': None}}
+    property_ids = ('C01', 'C12', 'C14')
+    less = True
+    def requires(self, c): return [c.pre['x_data'][0] != c.pre['y_data'][0]]
+    def pick(self, c, j):
+        x, y = c.pre['x_data'], c.pre['y_data']
+        cond = (x[0] <= y[0]) if self.less else (x[0] >= y[0])
+        return z3.If(cond, x[j], y[j])
+    def ensures(self, c):
+        o = c.outarr(); return [('out[d] = branch selected by the zeroth coefficients', c.forall(0, c.D, lambda j: o[j] == self.pick(c, j)))]
+    def invariants(self):
+        def inv0(c, d):
+            z = c.local('z_data'); return [c.forall(0, d, lambda j: z[j] == self.pick(c, j))] + c.unchanged('x_data', 'y_data', 'out')
+        return {0: inv0}
+    def sample_x0(self, name, rng): return round(rng.uniform(-1, 1) * 16) / 16 + (0.03125 if name == 'y_data' else 0.0)
+    def oracle(self, inp, scal, cfg):
+        takex = (inp['x_data'][0] <= inp['y_data'][0]) if self.less else (inp['x_data'][0] >= inp['y_data'][0])
+        return {self.out_key(cfg): list(inp['x_data'] if takex else inp['y_data'])}
+@register
+class Minimum(MinMax): qual = A('_minimum'); less = True
+@register
+class Maximum(MinMax): qual = A('_maximum'); less = False
+
+@register
+class BotchedClip(Contract):
+    """y = clip(x, a_min, a_max) away from the kinks; relies on `out` being a clone of x (precondition established by UTPM.botched_clip)"""
+    qual = A('_botched_clip'); arrays = ('x_data', 'out'); scalars = {'a_min': 'real', 'a_max': 'real'}; modifies = ('out',); returns = 'out'
+    cfgs = {'distinct': {}}
+    property_ids = ('C01', 'C12', 'C14')
+    def requires(self, c):
+        x = c.pre['x_data']; o0 = c.pre['out']; lo, hi = toR(scalar_of(c, 'a_min').t), toR(scalar_of(c, 'a_max').t)
+        return [x[0] != lo, x[0] != hi, lo <= hi, c.forall(0, c.D, lambda j: o0[j] == x[j])]
+    def val(self, c, j):
+        x = c.pre['x_data']; lo, hi = toR(scalar_of(c, 'a_min').t), toR(scalar_of(c, 'a_max').t)
+        inside = z3.And(lo < x[0], x[0] < hi)
+        return z3.If(j == 0, z3.If(x[0] < lo, lo, z3.If(x[0] > hi, hi, x[0])), z3.If(inside, x[j], z3.RealVal(0)))
+    def ensures(self, c):
+        o = c.cur('out'); return [('out = clip branch applied coefficient-wise', c.forall(0, c.D, lambda j: o[j] == self.val(c, j)))]
+    def invariants(self):
+        def inv0(c, d):
+            o = c.cur('out'); x = c.pre['x_data']
+            return [c.forall(0, d, lambda j: o[j] == self.val(c, j)), c.forall(d, c.D, lambda j: o[j] == x[j])] + c.unchanged('x_data')
+        return {0: inv0}
+    def native_scalars(self, cfg, rng): return {'a_min': 0.2, 'a_max': rng.choice([0.55, 2.0])}
+    def native_init(self, name, arr, cfg):
+        if name == 'x_data': self._x = arr
+        if name == 'out': arr[...] = self._x            # precondition: out is a clone of x
+    def oracle(self, inp, scal, cfg):
+        x = inp['x_data']; lo, hi = scal['a_min'], scal['a_max']; inside = lo < x[0] < hi
+        return {'out': [min(max(x[0], lo), hi)] + [(v if inside else 0.0) for v in x[1:]]}
+
+
+@register
+class Expm1(Contract):
+    qual = A('_expm1'); arrays = ('x_data', 'out'); modifies = ('out',); returns = 'out'
+    cfgs = {'distinct': {}, 'out_none': {'out': None}}
+    property_ids = ('C01', 'C12', 'C14')
+    skolem_instances = True
+    EXPM1 = z3.Function('EXPM1', S.ARR, S.I, S.R)
+    def f0(self, c):
+        from vc.engine import DER
+        return DER('nthderiv.expm1')(z3.IntVal(0), c.pre['x_data'][0])
+    def defs(self, c, n):
+        x = c.pre['x_data']
+        return [z3.Implies(n >= 1, toR(n) * self.EXPM1(x, n) == c.Sum(z3.IntVal(1), n, lambda k: toR(k) * x[k] * S.EXP(x, n - k))), self.EXPM1(x, 0) == self.f0(c)]
+    def ensures(self, c):
+        x = c.pre['x_data']; o = c.outarr()
+        return [("theta(y) = exp(x) (*) theta(x), y[0] = expm1(x0)", c.forall(0, c.D, lambda j: o[j] == self.EXPM1(x, j)))]
+    def spec_instances(self, c, n): return self.defs(c, n)
+    def oracle(self, inp, scal, cfg):
+        import math; x = inp['x_data']; return {self.out_key(cfg): SI.bfwf(x, SI.exp(x), math.expm1(x[0]))}
